@@ -103,6 +103,21 @@ def load_inventory() -> Optional[Set[str]]:
         return None
 
 
+def _body_sig(fn) -> str:
+    body = [x for x in fn.body if not (isinstance(x, ast.Expr) and isinstance(x.value, ast.Constant) and isinstance(x.value.value, str))]
+    import hashlib
+    args = ast.dump(fn.args)
+    return hashlib.sha256((args + "|" + "|".join(ast.dump(x) for x in body)).encode()).hexdigest()[:24]
+
+
+def load_bodies() -> Dict[str, str]:
+    try:
+        with open(INVENTORY) as fh:
+            return json.load(fh).get("bodies", {})
+    except (OSError, ValueError):
+        return {}
+
+
 def load_templates() -> Dict[str, dict]:
     try:
         with open(INVENTORY) as fh:
@@ -1210,6 +1225,58 @@ class ModuleInliner:
         for nm in cand:
             self.log.append(f"constant {self.modname}:{nm} written out")
 
+    # -- undoing renames of known functions ------------------------------------------------------------------------
+    def _undo_renames(self, bodies: Dict[str, str]):
+        """A function of the reference tree that is gone while a new function with the very same body (docstring aside) and parameters sits in the same
+        class / module is the same function under a new name: the old name is restored (definition and every reference in the package)."""
+        have = {d.qual for d in self.defs}
+        for qual, sig in bodies.items():
+            if not qual.startswith(self.modname + ":") or qual in have or ".<locals>." in qual:
+                continue
+            prefix, old = qual.rsplit(":", 1)[0], qual.rsplit(":", 1)[1]
+            cont = old.rsplit(".", 1)[0] if "." in old else None
+            old_name = old.rsplit(".", 1)[-1]
+            cands = []
+            for d in self.new:
+                if d.kind == "nested":
+                    continue
+                dcont = d.qual.rsplit(":", 1)[1].rsplit(".", 1)[0] if "." in d.qual.rsplit(":", 1)[1] else None
+                if dcont != cont:
+                    continue
+                if _body_sig(d.node) == sig:
+                    cands.append(d)
+            if len(cands) != 1:
+                continue
+            d = cands[0]
+            new_name = d.node.name
+            if new_name == old_name:
+                continue
+            # the old name must be free, the new name must not be a known name elsewhere
+            if any(q.rsplit(":", 1)[1].rsplit(".", 1)[-1] == new_name for q in self.known if ":" in q and not q.endswith(":" + new_name) is False):
+                pass
+            if any(isinstance(n, (ast.FunctionDef, ast.AsyncFunctionDef)) and n.name == old_name for n in d.container):
+                continue
+            for m in (self.pkg.values() or [self]):
+                for n in ast.walk(m.tree):
+                    if isinstance(n, ast.Name) and n.id == new_name:
+                        n.id = old_name
+                    elif isinstance(n, ast.Attribute) and n.attr == new_name:
+                        n.attr = old_name
+                    elif isinstance(n, (ast.FunctionDef, ast.AsyncFunctionDef)) and n.name == new_name and n is d.node:
+                        n.name = old_name
+                    elif isinstance(n, ast.ImportFrom):
+                        for a in n.names:
+                            if a.name == new_name:
+                                a.name = old_name
+                            if a.asname == new_name:
+                                a.asname = old_name
+                    elif isinstance(n, ast.keyword) and n.arg == new_name:
+                        pass
+            d.node.name = old_name
+            self.log.append(f"{self.modname}: {new_name} is the known function {old_name} under a new name (identical body): name restored")
+        self.defs = enumerate_defs(self.modname, self.tree)
+        self.new = [d for d in self.defs if d.qual not in self.known]
+
     # -- re-creating trivial helpers that were inlined away ------------------------------------------------------
     @staticmethod
     def _tmatch(pat, node, params, binds) -> bool:
@@ -1527,6 +1594,16 @@ def inline_package(trees: Dict[str, Tuple[ast.Module, bool]], known: Optional[Se
     log: List[str] = []
     try:
         templates = load_templates()
+        bodies = load_bodies()
+        for _pass in range(3):  # a renamed function may call another renamed function: repeat until nothing more is recognised
+            n_before = sum(len(m.log) for m in pkg.values())
+            for m in pkg.values():
+                m._undo_renames(bodies)
+            for m in pkg.values():
+                m.defs = enumerate_defs(m.modname, m.tree)
+                m.new = [d for d in m.defs if d.qual not in m.known]
+            if sum(len(m.log) for m in pkg.values()) == n_before:
+                break
         for m in pkg.values():
             m._inline_new_constants()
         for m in pkg.values():
